@@ -17,6 +17,12 @@ TUP = [["tuple"], ["tuple", "int"], ["tuple", "str"], ["tuple", "int", "str"], [
 GEN = [["gen", "list", "int"], ["gen", "list", "str"], ["gen", "Sequence", "int"], ["gen", "Collection", "int"], ["gen", "set", "int"],
        ["gen", "Mapping", "str", "int"], ["gen", "dict", "str", "int"], ["gen", "dict", "int", "int"]]
 STR = [["regexp", "^a"], ["startswith", "a"], ["endswith", "z"], ["haskey", "k"], ["haskey", "k", "j"]]
+# element types that are themselves value types; value types combined with plain classes
+NESTED = [["tuple", ["startswith", "a"]], ["tuple", ["lit", 0], ["endswith", "a"]], ["tuple", ["tuple", "int"], "str"], ["tuple", ["gen", "list", "int"]],
+          ["gen", "list", ["lit", 0]], ["gen", "list", ["lit", "a", 0]], ["gen", "list", ["startswith", "a"]], ["gen", "set", ["lit", 0]],
+          ["gen", "dict", "str", ["lit", 1]], ["gen", "Mapping", ["startswith", "k"], "int"], ["gen", "list", ["tuple", "int"]],
+          ["ounion", "int", ["startswith", "a"]], ["ounion", ["lit", "a"], "float"], ["inter", "str", ["endswith", "z"]],
+          ["inter", ["regexp", "^a"], "str"], ["ounion", ["tuple", "int"], ["gen", "list", "int"]], ["inter", ["gen", "dict", "str", "int"], ["haskey", "k"]]]
 
 
 def combos(tier):
@@ -38,7 +44,8 @@ CORPUS = [
     ("0", 0), ("1", 1), ("2", 2), ("3", 3), ("7", 7), ("10", 10), ("0.0", 0.0), ("1.0", 1.0), ("10.5", 10.5), ("'a'", "a"), ("'b'", "b"), ("'ab'", "ab"), ("'az'", "az"), ("'z'", "z"),
     ("'zz'", "zz"), ("''", ""), ("'c1'", "c1"), ("1.5", 1.5), ("()", ()), ("(0,)", (0,)), ("('z',)", ("z",)), ("(0,'a')", (0, "a")),
     ("('z',1)", ("z", 1)), ("(0,0)", (0, 0)), ("('a',)", ("a",)), ("(1,2,3)", (1, 2, 3)), ("[]", []), ("[0]", [0]), ("['a']", ["a"]),
-    ("[0,'a']", [0, "a"]), ("['a',0]", ["a", 0]), ("set()", set()), ("{0}", {0}), ("{'a'}", {"a"}), ("{}", {}), ("{'k':1}", {"k": 1}),
+    ("[0,'a']", [0, "a"]), ("['a',0]", ["a", 0]), ("[(0,)]", [(0,)]), ("[[0]]", [[0]]), ("([0],)", ([0],)), ("((0,),'a')", ((0,), "a")), ("(0,'za')", (0, "za")),
+    ("{'k':'v'}", {"k": "v"}), ("{'a':1,'k':2}", {"a": 1, "k": 2}), ("set()", set()), ("{0}", {0}), ("{'a'}", {"a"}), ("{}", {}), ("{'k':1}", {"k": 1}),
     ("{'k':1,'j':2}", {"k": 1, "j": 2}), ("{'a':1}", {"a": 1}), ("{1:1}", {1: 1}), ("{'a':'b'}", {"a": "b"}), ("None", None),
 ]
 VALUES = dict(CORPUS)
@@ -54,7 +61,7 @@ def companions(j, vtype, overlap):
 
 
 def programs(tier):
-    types = LIT + TUP + GEN + STR + combos(tier)
+    types = LIT + TUP + GEN + STR + NESTED + combos(tier)
     for T in types:
         for j in range(6):
             for vtype in ("int", "str", "float"):
@@ -202,7 +209,9 @@ def main(tier):
     return core.finish(
         PROP, tier, "model_checking", merged, t0,
         rule="type under test in {Literal with 1-4 values over int / str / mixed; tuple[...] arity 0-2 over int, str, Literal; list / "
-             "Sequence / Collection / set / Mapping / dict element types; Regexp, StartsWith, EndsWith, HasKey; & and | of pairs "
+             "Sequence / Collection / set / Mapping / dict element types; Regexp, StartsWith, EndsWith, HasKey; element types that are "
+             "themselves value types (tuple of StartsWith / of tuple / of list, list of Literal / of StartsWith / of tuple, dict with a Literal "
+             "value, Mapping with a StartsWith key); value types combined with plain classes; & and | of pairs "
              "(thorough: nesting depth 2)} x companions (0-5 single-valued Literal methods, same or other value type, disjoint or "
              "sharing a value; a second dependent position on every method / on the method under test only / on the companions only, "
              "called with a second argument inside and outside it; all registration orders for <= 2 companions; object fallback at priority "
